@@ -1,4 +1,5 @@
 import Pog.Lemmas.Names
+import Pog.Props.Extract
 import Pog.Lemmas.Fresh
 /-
   C20 — name derivation is total, valid and collision-safe.
@@ -18,6 +19,14 @@ import Pog.Lemmas.Fresh
     fresh loops    : terminate, output pairwise distinct, same length (nothing dropped) (full)
     operation ids  : de-duplication does NOT make method names distinct ✗ (`foo,foo,foo_2`)
 -/
+/-
+  C20, names invented by the inline-extraction passes (`{Parent}{Prop}Item`, `{Parent}{Prop}Enum`, numeric suffix loops;
+  Pog/Model/Extract.lean, proved in Pog/Props/Extract.lean, claimed here):
+    extract_new_names_fresh / extract_keys_nodup   every promoted name is new, the new names are pairwise distinct, distinct keys stay distinct
+    suffix_loops_terminate                         the `while name in schemas` loops terminate (fuel |taken|+1 suffices)
+    extract_keeps_original_names / extract_never_shrinks   original keys stay, in order
+-/
+-- INDEX Pog.ExtractProps: extract_keeps_original_names, extract_never_shrinks, suffix_loops_terminate, extract_new_names_fresh, extract_keys_nodup, enum_entry_name_counterexample
 namespace Pog.C20
 open Pog
 
